@@ -175,7 +175,99 @@ def observe_remove(case):
             res(g.topological_sort, names), gen(g.breadth_first), gen(g.depth_first)]
 
 
+def run_history(case):
+    """Mutators and queries interleaved on ONE live object (a Graph, or a TaskGraph whose nodes are Tasks)."""
+    via_tg = case.get("via") == "taskgraph"
+    if via_tg:
+        from utils import EventTime
+        from workload import Job, Task, TaskGraph
+        lg = implutil.quiet_logger()
+        objs = {}
+
+        def ob(k):
+            if k not in objs:
+                objs[k] = Task(name=nm(k), task_graph="TG", job=Job(name=nm(k), profile=None),
+                               deadline=EventTime(10 ** 9, EventTime.Unit.US), timestamp=0, _logger=lg)
+            return objs[k]
+
+        def key(x):
+            return un(x.name)
+    else:
+        def ob(k):
+            return nm(k)
+
+        def key(x):
+            return un(x)
+    wt = {int(k): v for k, v in case["w"]}
+
+    def w(x):
+        return wt.get(key(x), 1)
+
+    def ks(l):
+        return [key(x) for x in l]
+
+    def g_gen(f):
+        out = []
+        try:
+            for x in f():
+                out.append(key(x))
+                if len(out) > 2000:
+                    return [out[:50], 9]
+            return [out, 0]
+        except Exception as e:  # noqa: BLE001
+            return [out, code(e)]
+
+    def mut(f):
+        try:
+            f()
+            return [0]
+        except Exception as e:  # noqa: BLE001
+            return [1, code(e)]
+    try:
+        if via_tg:
+            g = TaskGraph(name="TG", tasks={ob(n): [ob(c) for c in cs] for n, cs in case["map"]})
+        else:
+            g = Graph({ob(n): [ob(c) for c in cs] for n, cs in case["map"]})
+    except Exception as e:  # noqa: BLE001
+        return [1, code(e)]
+    out = []
+    for op in case["ops"]:
+        k = op[0]
+        if k == "add_node":
+            if via_tg:
+                out.append(mut(lambda: g.add_task(ob(op[1]), [ob(c) for c in op[2]])))
+            else:
+                out.append(mut(lambda: g.add_node(ob(op[1]), *[ob(c) for c in op[2]])))
+        elif k == "add_child":
+            out.append(mut(lambda: g.add_child(ob(op[1]), ob(op[2]))))
+        elif k == "remove":
+            out.append(mut(lambda: g.remove(ob(op[1]))))
+        elif k == "nodes":
+            out.append(ks(g.get_nodes()))
+        elif k == "sources":
+            out.append(ks(g.get_sources()))
+        elif k == "topo":
+            out.append(res(g.topological_sort, ks))
+        elif k == "depth":
+            out.append(res(lambda: g.get_node_depth(ob(op[1]), func=max if op[2] else min), int))
+        elif k == "dep":
+            out.append(res(lambda: g.are_dependent(ob(op[1]), ob(op[2])), int))
+        elif k == "long":
+            out.append(res(g.get_longest_path, ks))
+        elif k == "longw":
+            out.append(res(lambda: g.get_longest_path(w), ks))
+        elif k == "bfs":
+            out.append(g_gen(lambda: g.breadth_first() if op[1] is None else g.breadth_first(ob(op[1]))))
+        elif k == "dfs":
+            out.append(g_gen(lambda: g.depth_first() if op[1] is None else g.depth_first(ob(op[1]))))
+        else:
+            raise SystemExit("unknown history op %r" % (op,))
+    return out
+
+
 result = {}
+if "histories" in payload:
+    result["histories"] = [run_history(c) for c in payload["histories"]]
 if "remove" in payload:
     result["remove"] = [observe_remove(c) for c in payload["remove"]]
 if "cases" in payload:
